@@ -1213,6 +1213,26 @@ example : ∃ L g, readEvents classifyLine wLimit c3.file = .ok L ∧ replayRaw 
         simp [envsW] at hes; subst hes
         cases hr; exact envA_OK
       | succ i => simp at hc)
+theorem c3_clock : ∀ (i p : Nat) (snap : List Event) (w : Write) (g : Graph), c3.commits[i]? = some (p, snap, w) → replayRaw snap = .ok g →
+    ∀ es : Env × Sec, envsW[p]? = some es → EnvOK g es.1 := by
+  intro i p snap w g hc hr es hes
+  have hcm : c3.commits = [(0, [], wrW)] := by simp [c3, c2, c1, c0, BSys.init, setPhaseB]
+  rw [hcm] at hc
+  cases i with
+  | zero =>
+    simp at hc; obtain ⟨rfl, rfl, rfl⟩ := hc
+    simp [envsW] at hes; subst hes
+    cases hr; exact envA_OK
+  | succ i => simp at hc
+theorem envsW_ok : ∀ es ∈ envsW, SecOK es.1 es.2 := by
+  intro es hes; simp [envsW] at hes; subst hes; show Text.isBlank "first" = false; decide
+theorem envsW_T : ∀ es ∈ envsW, EnvT es.1 := by intro es hes; simp [envsW] at hes; subst hes; exact envA_T
+example : ∃ L g, readEvents classifyLine wLimit c3.file = .ok L ∧ replayRaw L = .ok g ∧ Inv06 g :=
+  C06_inv_concurrent_on_disk [] [] envsW 0 wLimit ets readEvents_nil allWf_nil .init envsW_ok envsW_T c3 creach3 c3_clock
+example : ∃ L g, readEvents classifyLine wLimit c3.file = .ok L ∧ replayRaw L = .ok g ∧ Inv07 g :=
+  C07_inv_concurrent_on_disk [] [] envsW 0 wLimit ets readEvents_nil allWf_nil .init envsW_ok envsW_T c3 creach3 c3_clock
+example : ∃ L g, readEvents classifyLine wLimit c3.file = .ok L ∧ replayRaw L = .ok g ∧ Inv14 g :=
+  C14_inv_concurrent_on_disk [] [] envsW 0 wLimit ets readEvents_nil allWf_nil .init envsW_ok envsW_T c3 creach3 c3_clock
 end DiskConcRun
 
 end JsonWitness
